@@ -56,3 +56,41 @@ Definition run_sc_appendnumber (l : list Z) : list Z :=
   let '(b, r1) := take_list (tlz l4) in
   let '(sp, _) := take_list r1 in
   enc_bytes (append_number b sp num dec gsize gs ds).
+
+(* ---- float.go / decimal.go ---------------------------------------------------------------------- *)
+From Verif Require Import Strconv.FModel.
+
+Definition enc_float_res (r : res (f64 * Z)) : list Z :=
+  match r with
+  | Ok (f, n) => enc_u64 (bits_of_f f) ++ [n]
+  | Panic => [-1]
+  | NoFuel => [-3]
+  end.
+
+(* sc_parsefloat |b| b  ->  bits(hi lo) n *)
+Definition run_sc_parsefloat (l : list Z) : list Z :=
+  let '(b, _) := take_list l in enc_float_res (parse_float b).
+
+(* sc_parsedecimal |b| b  ->  bits(hi lo) n *)
+Definition run_sc_parsedecimal (l : list Z) : list Z :=
+  let '(b, _) := take_list l in enc_float_res (parse_decimal b).
+
+(* sc_appenddecimal hi lo dec |b| b |spare| spare  ->  the result *)
+Definition run_sc_appenddecimal (l : list Z) : list Z :=
+  let f := f_of_bits (dec_u64 (hdz l) (hdz (tlz l))) in
+  let dec := hdz (tlz (tlz l)) in
+  let '(b, r1) := take_list (tlz (tlz (tlz l))) in
+  let '(sp, _) := take_list r1 in
+  enc_bytes (append_decimal b sp f dec).
+
+(* sc_appendfloat hi lo prec |b| b |spare| spare  ->  the result *)
+Definition run_sc_appendfloat (l : list Z) : list Z :=
+  let f := f_of_bits (dec_u64 (hdz l) (hdz (tlz l))) in
+  let prec := hdz (tlz (tlz l)) in
+  let '(b, r1) := take_list (tlz (tlz (tlz l))) in
+  let '(sp, _) := take_list r1 in
+  enc_bytes (append_float b sp f prec).
+
+(* sc_float64exp hi lo -> float64exp *)
+Definition run_sc_float64exp (l : list Z) : list Z :=
+  [float64exp (f_of_bits (dec_u64 (hdz l) (hdz (tlz l))))].
